@@ -418,7 +418,7 @@ pub struct Shard {
 fn plan(args: &Args) -> Vec<Shard> {
     let mut v = Vec::new();
     // matrix: N cycles through 3..=8
-    let n_matrix = args.by_tier(16u64, 30);
+    let n_matrix = args.by_tier(16u64, 60);
     for case in 0..n_matrix {
         let ticks = [3, 5, 4, 6, 8, 7, 5, 6][(case % 8) as usize];
         let parts = match ticks {
@@ -437,7 +437,7 @@ fn plan(args: &Args) -> Vec<Shard> {
             });
         }
     }
-    let n_fork = args.by_tier(12u64, 24);
+    let n_fork = args.by_tier(12u64, 48);
     for case in 0..n_fork {
         let ticks = [3, 4, 5, 6, 4, 5][(case % 6) as usize];
         v.push(Shard {
@@ -448,7 +448,7 @@ fn plan(args: &Args) -> Vec<Shard> {
             ticks,
         });
     }
-    let n_long = args.by_tier(12u64, 24);
+    let n_long = args.by_tier(12u64, 48);
     for case in 0..n_long {
         let ticks = if args.is_quick() {
             [20, 28, 36, 48, 60, 24][(case % 6) as usize]
